@@ -184,6 +184,31 @@ def check_first_order(sc):
     return None
 
 
+def check_first_order_batch(sc):
+    """the same closed form cell by cell when two media are simulated at two frequencies in one call"""
+    from smrt import make_model, sensor_list
+    f1 = sc["frequency"]
+    f2 = 0.7 * f1
+    variants = [sc, dict(sc, thickness=[t * 3.0 for t in sc["thickness"]])]
+    sps = [scenes.build(v)[0] for v in variants]
+    m = make_model(sc["emmodel"], "dort", rtsolver_options=dict(n_max_stream=sc["nmax"], m_max=sc.get("m_max", 4)))
+    first = m.run(sensor_list.passive(f1, [10.]), sps[0])
+    ang = np.asarray(first.other_data["stream_angles"].values); ang = ang[(ang > 5) & (ang < 60)]
+    if len(ang) == 0:
+        return None
+    th = float(ang[len(ang) // 2])
+    # the stream angles depend on the permittivity, hence (slightly) on the frequency: use the 5 % between-streams tolerance
+    r = m.run(sensor_list.active([f1, f2], [th]), sps)
+    for k, v in enumerate(variants):
+        for f in (f1, f2):
+            vv, hh, albedo = first_order(dict(v, frequency=f), th)
+            got = float(np.asarray(r.sigmaVV(frequency=f, snowpack=k)).ravel()[0])
+            rel = abs(got - vv) / vv
+            if rel > 0.05 + 10 * albedo:
+                return ("first-order:batch", rel, f"<= 5 % + 10 x albedo for medium {k} at {f:g} Hz in a batch of two media x two frequencies")
+    return None
+
+
 def low_albedo_scene(rng, em="iba", ms="exponential"):
     sc = scenes.random_scene(rng, nlayer=1, lossless=False, microstructure=ms, atmosphere=False, substrate=None,
                              thick=(0.05, 100.0), frequency=float(rng.choice([0.435e9, 1.4e9, 5e9, 10e9, 13e9])))
@@ -238,6 +263,12 @@ def oracle(ctx, hints, effort):
             if r:
                 key = f"{r[0]}:{sc2['emmodel']}"
                 findings.setdefault(key, Finding(key, r[0], {"kind": "first-order", "scene": sc2}, r[1], r[2]))
+            if it == 1 or (effort != "routine" and it % 5 == 1):
+                evals += 3
+                r = check_first_order_batch(sc2)
+                if r:
+                    key = f"{r[0]}:{sc2['emmodel']}"
+                    findings.setdefault(key, Finding(key, r[0], {"kind": "first-order-batch", "scene": sc2}, r[1], r[2]))
         except AssertionError:
             pass
         except Exception as e:  # noqa  (the known "almost diagonal matrix" failure at high m_max is a loud SMRTError, C08)
@@ -252,7 +283,8 @@ def oracle(ctx, hints, effort):
 def replay(inp, rp=None):
     try:
         r = (check_reciprocity(inp["scene"], inp["thetas"]) if inp["kind"] == "reciprocity" else
-             check_accessors(inp["scene"], inp["thetas"]) if inp["kind"] == "accessors" else check_first_order(inp["scene"]))
+             check_accessors(inp["scene"], inp["thetas"]) if inp["kind"] == "accessors" else
+             check_first_order_batch(inp["scene"]) if inp["kind"] == "first-order-batch" else check_first_order(inp["scene"]))
     except Exception as e:  # noqa
         from smrt.core.error import SMRTError
         if isinstance(e, (SMRTError, AssertionError)):
